@@ -31,7 +31,7 @@ RULE = ('models (table zoo, cond(correlation)<=1e8, configs gaussian/default/kde
 ASSUMPTIONS = ['near-singular models are excluded from the CDF part (scipy raises LinAlgError there); they are covered by C02']
 
 EPS = A.EPS32
-CONFIGS = ('gaussian-class', 'default', 'kde-instance')
+CONFIGS = ('gaussian-class', 'default', 'kde-instance', 'dict')
 
 
 def _tables(tier):
@@ -46,6 +46,12 @@ def _tables(tier):
 
 def bounds(tier):
     return {'models': len(_tables(tier)) * len(CONFIGS), 'permutations': 'all d! for every model'}
+
+
+def prefork():
+    for d in (2, 3, 4, 5, 6):
+        for n in (31, 301):
+            A.korobov_generator(n, d)
 
 
 def cases(tier, seed):
